@@ -825,6 +825,8 @@ def rule_O2(ctx) -> None:
                     for _ in range(6):      # the iterated container: strip subscripts / method calls down to _betterproto.<table>
                         if t[0] in ("sub", "item"):
                             t = t[1]
+                        elif t[0] == "call" and t[1] in (N("$genexp"), N("$listcomp"), N("$setcomp")) and len(t[2]) >= 2:
+                            t = t[2][1]         # the iterable a comprehension ranges over
                         elif t[0] == "call" and t[1][0] == "a":
                             t = t[1][1]
                         elif t[0] == "call" and t[2]:
